@@ -6,7 +6,7 @@
    the history (the durability protocol itself is C10's Durability.v).
 
    The record [cfg] selects between the code pinned at the start of the work and the
-   code after the four C09 `fix:` commits; [current] is the code that exists now and is
+   code after the five C09 `fix:` commits; [current] is the code that exists now and is
    what the correspondence runs.  No proofs in this file. *)
 From Coq Require Import NArith List Bool.
 From LC Require Import Base.Lib Model.Dict.
@@ -17,10 +17,11 @@ Record cfg := mkCfg {
   fix_grave : bool;          (* add/update lift the tombstone *)
   fix_shadow_lookup : bool;  (* entries_iter_for: a pending entry shadows the snapshot's *)
   fix_shadow_entries : bool; (* entries_iter: the same for the enumeration *)
-  fix_trie_first : bool      (* Trie::lookup_first_n_phrases truncates to first *)
+  fix_trie_first : bool;     (* Trie::lookup_first_n_phrases truncates to first *)
+  fix_range : bool           (* pending entries of a key are no longer cut off at "\u{10FFFF}" *)
 }.
-Definition pinned : cfg := mkCfg false false false false.
-Definition fixed : cfg := mkCfg true true true true.
+Definition pinned : cfg := mkCfg false false false false false.
+Definition fixed : cfg := mkCfg true true true true true.
 (* the code that exists in /repo now *)
 Definition current : cfg := pinned.
 
@@ -56,7 +57,7 @@ Definition tb_entries_for (c : cfg) (tb : triebuf) (k : key) (s : strategy) : li
                then filter (fun ph => negb (bt_mem (k, ph_text ph) (tb_btree tb))) store
                else store in
   let pend := map bt_phrase
-                  (filter (fun e => seq_eqb (fst (fst e)) k && in_phrase_range (snd (fst e))) (tb_btree tb)) in
+                  (filter (fun e => seq_eqb (fst (fst e)) k && (fix_range c || in_phrase_range (snd (fst e)))) (tb_btree tb)) in
   filter (fun ph => negb (gr_mem (k, ph_text ph) (tb_grave tb))) (store ++ pend).
 
 (* entries_iter *)
@@ -70,7 +71,7 @@ Definition tb_entries (c : cfg) (tb : triebuf) : list (key * phrase) :=
 
 (* lookup_first_n_phrases *)
 Definition tb_lookup (c : cfg) (tb : triebuf) (k : key) (first : N) (s : strategy) : list phrase :=
-  firstN first (dedup (tb_entries_for c tb k s)).
+  truncate_usize first (dedup (tb_entries_for c tb k s)).
 
 Definition opt_default (o : option N) : N := match o with Some x => x | None => 0 end.
 
